@@ -35,3 +35,24 @@ Print Assumptions C03_dispatch_independent.
 Example C03_example_5_8 : fourier_table 5 8 [-4; 0; 3] =
   [[Some 0; Some 4; Some 0; Some 4; Some 0]; [Some 0; Some 0; Some 0; Some 0; Some 0]; [Some 2; Some 5; Some 0; Some 3; Some 6]].
 Proof. vm_compute. reflexivity. Qed.
+
+(* without cropping the pure FFT operator is unitary: for every N >= 1, in any commutative *-ring without zero divisors
+   that contains a primitive N-th root of unity zeta with |zeta| = 1 and a real c with c^2 N = 1 (the complex numbers with
+   zeta = exp(-2 pi i/N), c = 1/sqrt N being the intended instance), the columns of the centred DFT matrix
+   F[k',r] = c zeta^e(k',r) - with e the exponent table of the model that is compared with the code - are orthonormal *)
+From MrVerif Require Import Base.StarRing Base.Sums Proofs.RootsOfUnity.
+Theorem C03_unitary : forall (R : StarRing) (zeta : R) (N : nat),
+  (0 < N)%nat -> kpow R zeta N = k1 -> (forall d, (0 < d < N)%nat -> kpow R zeta d <> k1) ->
+  (forall a b : R, kmul a b = k0 -> a = k0 \/ b = k0) -> kmul (kconj zeta) zeta = k1 ->
+  forall c : R, kconj c = c -> kmul (kmul c c) (knat R N) = k1 ->
+  forall r s, (r < N)%nat -> (s < N)%nat ->
+  sum N (fun k' => kmul (kconj (F_entry R zeta N c k' r)) (F_entry R zeta N c k' s)) = if Nat.eqb r s then k1 else k0.
+Proof. exact dft_unitary. Qed.
+Print Assumptions C03_unitary.
+
+(* non-vacuity: the Gaussian integers contain the primitive 4th root of unity -i; (no real c with 4 c^2 = 1 exists in Z[i],
+   so the normalisation hypothesis is met in the Gaussian rationals / the complex numbers; here the unnormalised
+   orthogonality is evaluated) *)
+Example C03_roots_example : map (fun d => sum (R:=GRing) 4 (fun k => kpow GRing ((0, -1)%Z : G) (k * d))) [0; 1; 2; 3]%nat
+  = [(4, 0); (0, 0); (0, 0); (0, 0)]%Z.
+Proof. vm_compute. reflexivity. Qed.
